@@ -78,6 +78,9 @@ fn cfg(tier: Tier, index: u64) -> HistCfg {
         c.prelude = Prelude::ManyEntries(70_000);
         c.max_buckets = 65536;
         c.allow_lt8 = false;
+        // the point is the COUNT (> 2^16 entries), not the chain length: a table of 8 buckets makes
+        // the 70000 inserts quadratic (half an hour per case)
+        c.big_table = Some([4096u64, 16384, 65536][(index / 3000 % 3) as usize]);
         c.ops.val = ValProfile::Small;
         c.bufs = BufProfile::Plain;
     } else if index == 1009 || (tier == Tier::Thorough && index % 4000 == 9) {
